@@ -318,15 +318,12 @@ result<bool> url_pattern<regex_provider>::test(
       return false;
     }
 
-    std::string_view search_view = *apply_result->search;
-    if (search_view.starts_with("?")) {
-      search_view.remove_prefix(1);
-    }
-
+    // process() has already removed the single leading "?" / "#" delimiter of
+    // the search and hash members; what is left is the component itself.
     return test_components(*apply_result->protocol, *apply_result->username,
                            *apply_result->password, *apply_result->hostname,
                            *apply_result->port, *apply_result->pathname,
-                           search_view, *apply_result->hash);
+                           *apply_result->search, *apply_result->hash);
   }
 
   // URL string input path
@@ -433,16 +430,12 @@ result<std::optional<url_pattern_result>> url_pattern<regex_provider>::match(
     pathname = std::move(apply_result->pathname.value());
 
     // Set search to applyResult["search"].
+    // process() has already removed the single leading "?" delimiter.
     ADA_ASSERT_TRUE(apply_result->search.has_value());
-    if (apply_result->search->starts_with("?")) {
-      search = apply_result->search->substr(1);
-    } else {
-      search = std::move(apply_result->search.value());
-    }
+    search = std::move(apply_result->search.value());
 
     // Set hash to applyResult["hash"].
     ADA_ASSERT_TRUE(apply_result->hash.has_value());
-    ADA_ASSERT_TRUE(!apply_result->hash->starts_with("#"));
     hash = std::move(apply_result->hash.value());
   } else {
     ADA_ASSERT_TRUE(std::holds_alternative<std::string_view>(input));
